@@ -1498,3 +1498,88 @@ def spec_usage_hidden_positional(fns, consts):
 
 
 SPECS["C12"].append(spec_usage_hidden_positional)
+
+
+# ------------------------------------------------------------------ C18: candidate filtering order; subcommand level follows hidden aliases
+
+def _closure_fn(fns, loc):
+    c = [f for n, f in fns.items() if "{closure#" in n and loc in f.get().params[0][1]]
+    if len(c) != 1:
+        raise Unsupported(f"closure body for {loc} not found exactly once ({len(c)})")
+    return c[0].get()
+
+
+def _is_not_hidden(ctx, fns, loc):
+    """does the closure at `loc` compute `!candidate.is_hide_set()` ?"""
+    f = _closure_fn(fns, loc)
+    ex = symex.Exec(ctx, f, [("opq", "closure_env"), ("opq", "cand")]).run()
+    if len(ex.returns) != 1:
+        return False
+    pc, val = ex.returns[0]
+    k = ctx.keys.get("CompletionCandidate::is_hide_set(cand)")
+    return not pc and val[0] == "bool" and k is not None and val[1] == f"(not {k})"
+
+
+def spec_complete_candidates(fns, consts):
+    """clap_complete::engine::complete_arg (call order and data flow on every path to its Ok return):
+    hidden candidates are dropped - `retain(!hidden)` exactly when `any(!hidden)` - BEFORE candidates are
+    de-duplicated by id, so that a hidden spelling can never shadow the visible spelling of the same
+    argument or subcommand.   clap_complete::engine::complete (one pass of its token loop): the
+    subcommand level is advanced through Command::find_subcommand on the word's value (which follows
+    hidden aliases as the real parser does)."""
+    con = contracts.Contracts(fns, default_pure=True)
+    ctx = symex.Ctx(consts, con)
+    fn = fns["complete_arg"].get()
+    ex = symex.Exec(ctx, fn, [("opq", "arg"), ("opq", "cmd"), ("opq", "current_dir"), ("bv", ctx.sym("pos_index", "(_ BitVec 64)"), 64), ("opq", "state")])
+    ex.run(havoc_unassigned=True, cut_loops=True)
+    obs = []
+
+    def add(msg, pc, neg, block="ret", f=fn):
+        obs.append({"fn": f.name, "block": block, "kind": "spec", "target": "complete_candidates", "msg": msg, "pc": list(pc), "neg": neg})
+
+    n_ok = 0
+    paths = [(pc, ca) for (pc, val), ca in zip(ex.returns, ex.return_callargs) if val[0] == "enum" and val[1] == "Ok"] + \
+            [(pc, env.get("#callargs", ())) for pc, env in ex.cuts if any("sort_by_key" in c[0] or "HashSet" in c[0] for c in env.get("#callargs", ()))]
+    for pc, ca in paths:
+        names = [c[0] for c in ca]
+        anys = [i for i, n in enumerate(names) if re.search(r"Iter<'_, CompletionCandidate> as Iterator>::any::<", n)]
+        rets = [i for i, n in enumerate(names) if re.search(r"^Vec::<CompletionCandidate>::retain::<", n)]
+        hs = [i for i, n in enumerate(names) if re.search(r"^HashSet::<.*>::new$", n)]
+        if not hs:
+            continue
+        n_ok += 1
+        loc = lambda n: re.search(r"\{closure@[^}]*\}", n).group(0)
+        ok = len(anys) == 1 and anys[0] < hs[0] and _is_not_hidden(ctx, fns, loc(names[anys[0]]))
+        hidden_rets = [i for i in rets if i < hs[0]]
+        dedup = [i for i in rets if i > hs[0]]
+        ok = ok and len(dedup) == 1
+        if ok:
+            asym = ctx.keys.get(ca[anys[0]][2])
+            if asym in pc:
+                ok = len(hidden_rets) == 1 and hidden_rets[0] > anys[0] and _is_not_hidden(ctx, fns, loc(names[hidden_rets[0]]))
+            else:
+                ok = not hidden_rets
+        add("hidden candidates are filtered (retain(!hidden) iff any(!hidden)) before the de-duplication by id", pc, "false" if ok else "true")
+    if n_ok == 0:
+        add("complete_arg: no path reaches the candidate filters", [], "true", block="shape")
+
+    # complete: one pass of the token loop
+    cfn = fns["complete"].get()
+    hdr = [b for b, blk in cfn.blocks.items() if any(re.search(r"= RawArgs::next\(", s) for s in blk["stmts"])]
+    if len(hdr) != 1:
+        raise Unsupported("clap_complete::engine::complete: loop header not found")
+    ex2 = symex.Exec(ctx, cfn, [("opq", "cmd"), ("opq", "args"), ("bv", ctx.sym("arg_index", "(_ BitVec 64)"), 64), ("opq", "current_dir")])
+    ex2.run(start=hdr[0], stop_at=hdr[0], havoc_unassigned=True, cut_loops=True)
+    sub_paths = 0
+    for pc, env in ex2.stops:
+        ca = env.get("#callargs", ())
+        for c in ca:
+            if re.search(r"Command::find_subcommand(::<.*>)?$", c[0]) and "to_value" in c[1][1]:
+                sub_paths += 1
+    lookups = {c[0] for _, env in ex2.stops for c in env.get("#callargs", ()) if re.search(r"Command::(get_subcommands|get_name_and_visible_aliases|get_visible_aliases|get_all_aliases|get_name)$", c[0])}
+    add("the subcommand level is advanced by Command::find_subcommand(value) and by nothing else", [], "false" if (sub_paths > 0 and not lookups) else "true", block="loop", f=cfn)
+    return ctx, obs, [_enc(fn, ex, len(paths)), _enc(cfn, ex2, len(ex2.stops))], con
+
+
+spec_complete_candidates.crate = "clap_complete"
+SPECS["C18"].append(spec_complete_candidates)
